@@ -30,13 +30,19 @@ REGISTRY = {
     "C01": ("codec", "run_c01"),
     "C02": ("codec", "run_c02"),
     "C03": ("gateway", "run_c03"),
+    "C04": ("gateway", "run_c04"),
     "C05": ("gateway", "run_c05"),
+    "C06": ("gateway", "run_c06"),
+    "C07": ("gateway", "run_c07"),
+    "C08": ("gateway", "run_c08"),
     "C09": ("flushrace", "run_c09"),
     "C10": ("gateway", "run_c10"),
     "C11": ("gateway", "run_c11"),
+    "C12": ("gateway", "run_c12"),
     "C15": ("fileops", "run_c15"),
     "C16": ("lifecycle", "run_c16"),
     "C17": ("stream", "run_c17"),
+    "C19": ("gateway", "run_c19"),
     "C18": ("mqtt", "run_c18"),
 }
 
